@@ -486,6 +486,10 @@ func runC04(c *fw.Ctx) {
 				_, _, ferr := execRound(fp, root, rd)
 				fp.Close()
 				grocksdb.Control(work4).Restart()
+				if ferr != nil && errors.Is(ferr, errSameObjectRead) {
+					// the save itself reported success although one of its writes was refused, and the state is incomplete
+					fail("v%d: write %d of %d of the save was refused by the store, SaveChanges still reported success: %v", v, i+1, W, ferr)
+				}
 				if ferr == nil {
 					if f := checkReadable(work4, saved[len(saved)-1]); f != "" {
 						fail("v%d: write %d of %d of the save was refused by the store, the round still reported success, and the saved state is incomplete: %s", v, i+1, W, f)
